@@ -1062,6 +1062,33 @@ class Analyzer:
             return st
         if k != 'bin' or e['op'] not in CMP_OPS:
             return st
+        # a comparison with (c ? x : y): it holds with c and x, or with !c and y
+        for side_ in ('l', 'r'):
+            x_ = strip_casts(e[side_])
+            if x_.get('k') == 'cond':
+                outs = []
+                for (ct, sub) in ((True, x_['t']), (False, x_['e'])):
+                    s_ = self.refine_cond(x_['c'], ct, st)
+                    if s_ is None:
+                        continue
+                    e2 = dict(e)
+                    e2[side_] = sub
+                    lv, rv = const_val(e2['l']), const_val(e2['r'])
+                    if lv is not None and rv is not None:
+                        holds = {'<': lv < rv, '<=': lv <= rv, '>': lv > rv, '>=': lv >= rv, '==': lv == rv, '!=': lv != rv}[e['op']]
+                        if holds != truth:
+                            continue
+                    else:
+                        s_ = self.refine_cond(e2, truth, s_)
+                        if s_ is None:
+                            continue
+                    outs.append(s_)
+                if not outs:
+                    return None
+                out_ = outs[0]
+                for s_ in outs[1:]:
+                    out_ = join(out_, s_)
+                return out_
         # the buffer pointer itself: once it was found non-NULL (and it is never assigned) it stays so; can_access re-tests it
         if e['op'] in ('==', '!=') and (is_null_const(e['l']) or is_null_const(e['r'])):
             other = strip_casts(e['l'] if is_null_const(e['r']) else e['r'])
@@ -1333,6 +1360,18 @@ class Analyzer:
         return None
 
     def refine_rel(self, L, op, Rr, st):
+        # S op (B.length - B.offset): what is left of the input, compared with S - the same as (B.offset + S) op B.length
+        # (the difference is only formed where offset <= length is known: under the test that guards it)
+        for (x_, y_, flip) in ((L, Rr, False), (Rr, L, True)):
+            y0 = strip_casts(y_)
+            if y0.get('k') == 'bin' and y0['op'] == '-' and self.buf_field(y0['l'], 'length') and \
+                    self.buf_field(y0['r'], 'offset') == self.buf_field(y0['l'], 'length'):
+                B_ = self.buf_field(y0['l'], 'length')
+                if st.buf.get(B_, TOP)[0] >= 0:
+                    summ = {'k': 'bin', 'op': '+', 'l': y0['r'], 'r': x_, 'ty': y0.get('ty'), 'id': None}
+                    if 'ty0' in y0:
+                        summ['ty0'] = y0['ty0']
+                    return self.refine_rel(summ, op, y0['l'], st) if not flip else self.refine_rel(y0['l'], op, summ, st)
         a, b = self.side(L, st), self.side(Rr, st)
         # absolute index against the length of its buffer: i + c < B.length etc.
         for (x_, y_, flip) in ((L, Rr, False), (Rr, L, True)):
